@@ -46,6 +46,9 @@ CHECKS = {
  'C18': ('exploration', 'file-system snapshot diff + sys.addaudithook record of every path operation around each LocalStorage call on an adversarial sandbox (strace cross-check in the thorough tier)',
          'Held on every explored (key, filename, operation, mode): outside canaries byte-identical, every changed or audited path inside the one direct child the key names.',
          'A key that is a symlink to a sibling key dir names that sibling; stat() during path resolution is not an open.', '4 C18'),
+ 'C19': ('exploration', 'exactly-once token oracle over records received by a handler on labtech.logger at the moment run_tasks returns; gate-controlled choice of the last finisher',
+         'Held on every explored run: each unique token emitted by an executed task (logger levels; stdout/stderr print/flush patterns on process backends) occurs exactly once in the received records before run_tasks returns.',
+         'stdout/stderr capture only promised for process backends.', '4 C19'),
  'C20': ('exploration', 'parse-back of build_task_diagram output compared with an independent traversal of the generated graph; cross-interpreter digest comparison',
          'Held on every explored graph: one class block per reachable type with all fields and run signature, one arrow per (dependent type, parameter, dependency type) with the right "many" flag, deterministic output.',
          'Per-arrow reading of "many"; block/arrow order not asserted.', '4 C20'),
